@@ -44,6 +44,7 @@ class GaussianMixture:
         self.tol = tol
         self.reg_covar = reg_covar
         self.random_state = random_state
+        self._rng = np.random
 
         # Fitted parameters
         self.weights_ = None
@@ -91,8 +92,13 @@ class GaussianMixture:
         best_params = None
         best_lower_bound = -np.inf
 
-        if self.random_state is not None:
-            np.random.seed(self.random_state)
+        # Draw from a private generator when a seed is given: seeding the process-wide
+        # stream here would make every later draw of the caller replay the same numbers.
+        self._rng = (
+            np.random.RandomState(self.random_state)
+            if self.random_state is not None
+            else np.random
+        )
 
         for init in range(self.n_init):
             # Initialize parameters
@@ -141,7 +147,7 @@ class GaussianMixture:
 
         # First center: weighted random sample
         cumsum = np.cumsum(sample_weight)
-        r = np.random.rand() * cumsum[-1]
+        r = self._rng.rand() * cumsum[-1]
         means[0] = X[np.searchsorted(cumsum, r)]
 
         # Remaining centers
@@ -154,7 +160,7 @@ class GaussianMixture:
             probabilities /= np.sum(probabilities)
 
             cumsum = np.cumsum(probabilities)
-            r = np.random.rand() * cumsum[-1]
+            r = self._rng.rand() * cumsum[-1]
             means[k] = X[np.searchsorted(cumsum, r)]
 
         # Initialize responsibilities and compute initial parameters
